@@ -35,11 +35,12 @@ Qed.
 Definition st_in (st : nst) (p : str) : nst :=
   mkNst (n_idx st) (n_ins st ++ [p]) (n_inn st ++ [p]) (n_outn st) (n_att st) (n_conns st) (n_bb st) (n_lib st) (n_def st).
 
-Lemma R_set_in nm m m1 st p :
+Lemma R_set_in nm cur al m m1 st p :
   vcore m m1 -> (forall p', port_dir p' m1 = if str_eqb p' p then DIn else port_dir p' m) ->
-  n_outn st = [] -> R nm m st -> R nm m1 (st_in st p).
+  n_outn st = [] -> RX nm cur al m st -> RX nm cur al m1 (st_in st p).
 Proof.
-  intros [V1 [V2 [V3 V4]]] Hd Ho [R1 R2 R3 R4 R5 R6 R7 R8 R9].
+  intros [V1 [V2 [V3 V4]]] Hd Ho [[R1 R2 R3 R4 R5 R6 R7 R8] HN].
+  split; [|cbn [st_in n_att n_conns n_bb]; rewrite V1; exact HN].
   constructor; cbn [st_in n_idx n_ins n_inn n_outn n_att n_conns n_bb n_lib n_def]; rewrite ?V1, ?V2, ?V3, ?V4; auto.
   - intros Hr p'. rewrite Hd, mem_app, mem_one, Ho. destruct (str_eqb p' p) eqn:E.
     + rewrite orb_true_r. reflexivity.
@@ -47,11 +48,11 @@ Proof.
   - intro p'. rewrite !mem_app, R3. reflexivity.
 Qed.
 
-Lemma R_do_input cur ms tok ms' nm st :
-  do_input cur (Ok ms) tok = Ok ms' ->
-  R nm (get_model nm ms) st ->
-  (nm = cur -> n_conns st = [] /\ n_bb st = false /\ n_outn st = []) ->
-  R nm (get_model nm ms') (if str_eqb nm cur then in_tok st tok else st).
+Lemma R_do_input al cur ms tok ms' nm st :
+  do_input al cur (Ok ms) tok = Ok ms' ->
+  RX nm cur al (get_model nm ms) st ->
+  (nm = cur -> n_bb st = false /\ n_outn st = []) ->
+  RX nm cur al (get_model nm ms') (if str_eqb nm cur then in_tok st tok else st).
 Proof.
   intros H HR Hc. unfold do_input in H. cbn [bind] in H.
   destruct (pni tok) as [[p i]|] eqn:Ep; [|discriminate]. cbn [bind] in H. apply pni_nb in Ep.
@@ -60,8 +61,8 @@ Proof.
   assert (N1 : map m_name ms1 = map m_name ms).
   { unfold ms1. destruct (find_port _ _); [apply upd_model_names; intros x Hx; exact Hx|apply names_add_port]. }
   destruct (str_eqb nm cur) eqn:E.
-  - apply str_eqb_spec in E. subst nm. destruct (Hc eq_refl) as [C1 [C2 C3]].
-    destruct (get_model_upd_res_same _ _ _ _ H) as [m' [H1 [H2 H3]]]; [intros; eapply connect_name; eauto|].
+  - apply str_eqb_spec in E. subst nm. destruct (Hc eq_refl) as [C2 C3].
+    destruct (get_model_upd_res_same _ _ _ _ H) as [m' [H1 [H2 H3]]]; [intros; eapply connect_to_name; eauto|].
     assert (Hf : find_model cur ms = Some (get_model cur ms)).
     { eapply (find_of_names cur ms ms2); [|exact H3]. unfold ms2. rewrite names_grow_port. exact N1. }
     set (m := get_model cur ms) in *.
@@ -77,12 +78,12 @@ Proof.
         + destruct (str_eqb p' p) eqn:E3; [|reflexivity]. apply str_eqb_spec in E3. subst. congruence.
         + rewrite str_eqb_sym. destruct (str_eqb p' p); reflexivity. }
     destruct A as [A1 A2]. rewrite H2.
-    assert (R1 : R cur (get_model cur ms2) (st_in st p)).
-    { eapply R_geq; [apply geq_grow_port|]. eapply R_set_in; eauto. }
-    pose proof (R_connect cur _ _ _ _ _ (st_in st p) H1 C1 C2 R1) as R2.
+    assert (R1 : RX cur cur al (get_model cur ms2) (st_in st p)).
+    { eapply RX_geq; [apply geq_grow_port|]. eapply R_set_in; eauto. }
+    pose proof (RX_connect cur _ _ _ _ _ _ (st_in st p) H1 C2 R1) as R2.
     unfold in_tok, tok_port, tok_named, att_in. rewrite Ep. exact R2.
-  - apply str_eqb_false in E.
-    rewrite (get_model_upd_res_other _ _ _ _ nm H); [|intros; eapply connect_name; eauto|exact E].
+  - apply str_eqb_false in E. apply RX_other; [exact E|]. apply RX_R in HR.
+    rewrite (get_model_upd_res_other _ _ _ _ nm H); [|intros; eapply connect_to_name; eauto|exact E].
     eapply R_geq; [apply geq_grow_port|]. unfold ms1. destruct (find_port _ _).
     + rewrite get_model_upd_other; [exact HR|intros x Hx; exact Hx|exact E].
     + eapply R_geq; [apply geq_add_port_other; exact E|exact HR].
@@ -96,16 +97,16 @@ Lemma in_tok_fields st t :
   n_conns (in_tok st t) = n_conns st /\ n_bb (in_tok st t) = n_bb st /\ n_outn (in_tok st t) = n_outn st.
 Proof. repeat split. Qed.
 
-Lemma R_do_inputs cur l : forall ms ms' nm st,
-  fold_left (do_input cur) l (Ok ms) = Ok ms' ->
-  R nm (get_model nm ms) st ->
-  (nm = cur -> n_conns st = [] /\ n_bb st = false /\ n_outn st = []) ->
-  R nm (get_model nm ms') (if str_eqb nm cur then fold_left in_tok l st else st).
+Lemma R_do_inputs al cur l : forall ms ms' nm st,
+  fold_left (do_input al cur) l (Ok ms) = Ok ms' ->
+  RX nm cur al (get_model nm ms) st ->
+  (nm = cur -> n_bb st = false /\ n_outn st = []) ->
+  RX nm cur al (get_model nm ms') (if str_eqb nm cur then fold_left in_tok l st else st).
 Proof.
   induction l as [|t l IH]; intros ms ms' nm st H HR Hc; cbn [fold_left] in *.
   - inversion H; subst. destruct (str_eqb nm cur); exact HR.
-  - destruct (do_input cur (Ok ms) t) as [ms1|e] eqn:E1; [|rewrite fold_res_err in H; [discriminate|reflexivity]].
-    pose proof (R_do_input _ _ _ _ _ _ E1 HR Hc) as R1.
+  - destruct (do_input al cur (Ok ms) t) as [ms1|e] eqn:E1; [|rewrite fold_res_err in H; [discriminate|reflexivity]].
+    pose proof (R_do_input _ _ _ _ _ _ _ E1 HR Hc) as R1.
     specialize (IH ms1 ms' nm _ H R1). destruct (str_eqb nm cur) eqn:E; apply IH; intro Hn.
     + exact (Hc Hn).
     + apply str_eqb_false in E. contradiction.
@@ -115,12 +116,13 @@ Qed.
 Definition st_out (st : nst) (p : str) : nst :=
   mkNst (n_idx st) (n_ins st) (n_inn st) (n_outn st ++ [p]) (n_att st) (n_conns st) (n_bb st) (n_lib st) (n_def st).
 
-Lemma R_set_out nm m m1 st p :
+Lemma R_set_out nm cur al m m1 st p :
   vcore m m1 ->
   (forall p', port_dir p' m1 = if str_eqb p' p then dirf (mem p (n_inn st)) true else port_dir p' m) ->
-  reserved nm = false -> R nm m st -> R nm m1 (st_out st p).
+  reserved nm = false -> RX nm cur al m st -> RX nm cur al m1 (st_out st p).
 Proof.
-  intros [V1 [V2 [V3 V4]]] Hd Hres [R1 R2 R3 R4 R5 R6 R7 R8 R9].
+  intros [V1 [V2 [V3 V4]]] Hd Hres [[R1 R2 R3 R4 R5 R6 R7 R8] HN].
+  split; [|cbn [st_out n_att n_conns n_bb]; rewrite V1; exact HN].
   constructor; cbn [st_out n_idx n_ins n_inn n_outn n_att n_conns n_bb n_lib n_def]; rewrite ?V1, ?V2, ?V3, ?V4; auto.
   intros Hr p'. rewrite Hd, mem_app, mem_one. destruct (str_eqb p' p) eqn:E.
   - apply str_eqb_spec in E. subst. rewrite orb_true_r. reflexivity.
@@ -130,11 +132,11 @@ Qed.
 Lemma dirf_is_in a b : dir_eqb (dirf a b) DIn || dir_eqb (dirf a b) DInout = a.
 Proof. destruct a, b; reflexivity. Qed.
 
-Lemma R_do_output cur ms tok ms' nm st ins :
-  do_output cur (Ok ms) tok = Ok ms' ->
-  R nm (get_model nm ms) st -> n_ins st = ins ->
-  (nm = cur -> n_conns st = [] /\ n_bb st = false /\ reserved nm = false) ->
-  R nm (get_model nm ms') (if str_eqb nm cur then out_tok ins st tok else st).
+Lemma R_do_output al cur ms tok ms' nm st ins :
+  do_output al cur (Ok ms) tok = Ok ms' ->
+  RX nm cur al (get_model nm ms) st -> n_ins st = ins ->
+  (nm = cur -> n_bb st = false /\ reserved nm = false) ->
+  RX nm cur al (get_model nm ms') (if str_eqb nm cur then out_tok ins st tok else st).
 Proof.
   intros H HR Hins Hc. unfold do_output in H. cbn [bind] in H.
   destruct (pni tok) as [[p i]|] eqn:Ep; [|discriminate]. cbn [bind] in H. apply pni_nb in Ep.
@@ -148,7 +150,7 @@ Proof.
   assert (N2 : map m_name ms3 = map m_name ms).
   { unfold ms3, ms2. rewrite names_grow_port, upd_model_names; [exact N1|intros x Hx; exact Hx]. }
   destruct (str_eqb nm cur) eqn:E.
-  - apply str_eqb_spec in E. subst nm. destruct (Hc eq_refl) as [C1 [C2 C3]].
+  - apply str_eqb_spec in E. subst nm. destruct (Hc eq_refl) as [C2 C3].
     assert (Hf : find_model cur ms = Some (get_model cur ms)).
     { destruct (find_model cur ms) as [m0|] eqn:E0; [rewrite (get_model_find _ _ _ E0); reflexivity|]. exfalso.
       assert (Hx : find_model cur ms1 = None) by (apply find_model_None; rewrite N1; apply find_model_None; exact E0).
@@ -156,7 +158,7 @@ Proof.
       assert (Hio : inout = false) by (rewrite Eio; unfold d; rewrite (get_model_none _ _ Hx); reflexivity).
       rewrite Hio in H. unfold upd_model_res in H. rewrite Hy in H. discriminate. }
     set (m := get_model cur ms) in *.
-    pose proof (r_dir _ _ _ HR C3) as Hdir. set (a := mem p (n_inn st)) in *.
+    pose proof (r_dir _ _ _ (RX_R _ _ _ _ _ HR) C3) as Hdir. set (a := mem p (n_inn st)) in *.
     assert (A : vcore m (get_model cur ms1) /\ (forall p', port_dir p' (get_model cur ms1) =
                    if str_eqb p' p then (match find_port p (m_ports m) with Some _ => port_dir p m | None => DOut end)
                    else port_dir p' m) /\ find_model cur ms1 = Some (get_model cur ms1) /\
@@ -190,34 +192,34 @@ Proof.
         + specialize (A2 p'). rewrite E3 in A2. unfold port_dir in A2 |- *.
           destruct (find_port p' (m_ports (get_model cur ms1))); [exact A2|exact A2]. }
     destruct B as [B1' B2'].
-    assert (R1 : R cur (get_model cur ms3) (st_out st p)).
-    { eapply R_geq; [apply geq_grow_port|]. eapply R_set_out; eauto. }
+    assert (R1 : RX cur cur al (get_model cur ms3) (st_out st p)).
+    { eapply RX_geq; [apply geq_grow_port|]. eapply R_set_out; eauto. }
     assert (Hk : out_keep ins tok = negb a).
-    { unfold out_keep. rewrite Ep. f_equal. rewrite <- Hins. apply (r_ins _ _ _ HR p). }
+    { unfold out_keep. rewrite Ep. f_equal. rewrite <- Hins. apply (r_ins _ _ _ (RX_R _ _ _ _ _ HR) p). }
     unfold out_tok, tok_named, att_in. rewrite Hk, Ep. rewrite Hio in H. destruct a; cbn [negb].
     + inversion H; subst ms'. rewrite <- (add_att_nil (st_out st p)) in R1. exact R1.
-    + destruct (get_model_upd_res_same _ _ _ _ H) as [m' [H1 [H2 H3]]]; [intros; eapply connect_name; eauto|].
-      rewrite H2. exact (R_connect cur _ _ _ _ _ (st_out st p) H1 C1 C2 R1).
-  - apply str_eqb_false in E.
+    + destruct (get_model_upd_res_same _ _ _ _ H) as [m' [H1 [H2 H3]]]; [intros; eapply connect_to_name; eauto|].
+      rewrite H2. exact (RX_connect cur _ _ _ _ _ _ (st_out st p) H1 C2 R1).
+  - apply str_eqb_false in E. apply RX_other; [exact E|]. apply RX_R in HR.
     assert (G : geq (get_model nm ms) (get_model nm ms3)).
     { unfold ms3. eapply geq_trans; [|apply geq_grow_port]. unfold ms2.
       rewrite get_model_upd_other; [|intros x Hx; exact Hx|exact E].
       unfold ms1. destruct (find_port _ _); [apply geq_refl|apply geq_add_port_other; exact E]. }
     destruct inout.
     + inversion H; subst ms'. eapply R_geq; eauto.
-    + rewrite (get_model_upd_res_other _ _ _ _ nm H); [|intros; eapply connect_name; eauto|exact E].
+    + rewrite (get_model_upd_res_other _ _ _ _ nm H); [|intros; eapply connect_to_name; eauto|exact E].
       eapply R_geq; eauto.
 Qed.
 
-Lemma R_do_outputs cur ins l : forall ms ms' nm st,
-  fold_left (do_output cur) l (Ok ms) = Ok ms' ->
-  R nm (get_model nm ms) st -> n_ins st = ins ->
-  (nm = cur -> n_conns st = [] /\ n_bb st = false /\ reserved nm = false) ->
-  R nm (get_model nm ms') (if str_eqb nm cur then fold_left (out_tok ins) l st else st).
+Lemma R_do_outputs al cur ins l : forall ms ms' nm st,
+  fold_left (do_output al cur) l (Ok ms) = Ok ms' ->
+  RX nm cur al (get_model nm ms) st -> n_ins st = ins ->
+  (nm = cur -> n_bb st = false /\ reserved nm = false) ->
+  RX nm cur al (get_model nm ms') (if str_eqb nm cur then fold_left (out_tok ins) l st else st).
 Proof.
   induction l as [|t l IH]; intros ms ms' nm st H HR Hi Hc; cbn [fold_left] in *.
   - inversion H; subst. destruct (str_eqb nm cur); exact HR.
-  - destruct (do_output cur (Ok ms) t) as [ms1|e] eqn:E1; [|rewrite fold_res_err in H; [discriminate|reflexivity]].
-    pose proof (R_do_output _ _ _ _ _ _ _ E1 HR Hi Hc) as R1.
+  - destruct (do_output al cur (Ok ms) t) as [ms1|e] eqn:E1; [|rewrite fold_res_err in H; [discriminate|reflexivity]].
+    pose proof (R_do_output _ _ _ _ _ _ _ _ E1 HR Hi Hc) as R1.
     specialize (IH ms1 ms' nm _ H R1). destruct (str_eqb nm cur) eqn:E; apply IH; auto.
 Qed.
